@@ -28,6 +28,7 @@ from typing import List, Tuple, Any, Dict
 import enum
 from dataclasses import dataclass
 from datetime import datetime, timedelta, date, time, timezone
+import copy
 import json
 
 
@@ -119,7 +120,11 @@ class MaintenanceInfo:
         self._nodes[name] = minfo
 
     def get(self, name: str) -> MaintenanceEntry or None:
-        return self._nodes.get(name)
+        entry = self._nodes.get(name)
+        if self._lock and entry is not None:
+            # entries are mutable: a finalized object hands out copies, not its own entries
+            return copy.copy(entry)
+        return entry
 
     def rem(self, name: str) -> None:
         """
@@ -150,7 +155,8 @@ class MaintenanceInfo:
         Copy an instance of the object but don't finalize
         """
         t = MaintenanceInfo()
-        t._nodes = self._nodes.copy()
+        # entries are mutable: the copy gets entries of its own
+        t._nodes = {k: copy.copy(v) for k, v in self._nodes.items()}
         return t
 
     def list_names(self) -> List[str]:
@@ -163,6 +169,8 @@ class MaintenanceInfo:
         """
         Return a list of tuples with node name and maintenance state details
         """
+        if self._lock:
+            return [(k, copy.copy(v)) for k, v in self._nodes.items()]
         return list(self._nodes.copy().items())
 
     def iter(self):
@@ -173,8 +181,8 @@ class MaintenanceInfo:
         """
         if not self._lock:
             raise MaintenanceModeException("Object should be finalized prior to attempting iteration")
-        for i in self._nodes.items():
-            yield i
+        for k, v in self._nodes.items():
+            yield k, copy.copy(v)
 
     @classmethod
     def from_json(cls, json_string: str):
